@@ -173,6 +173,17 @@ Proof.
     exists key, t. repeat split; assumption.
 Qed.
 
+(* the guard on a double (57534b2): it is enough that libc reads the "%.16g" text back as a finite nonzero value -
+   normal or subnormal, whether or not ERANGE is raised - or does not raise ERANGE at all *)
+Lemma double_value_good w it : it_type it = TDouble ->
+  let r := strtod (fmt16 (st_dbl (w_store w) (it_var it))) in
+  (0 < dbl_mag (fst r) < DBL_INF \/ snd r = false) -> value_good strtod fmt16 w it.
+Proof.
+  intros Ht r H. unfold value_good. rewrite Ht. fold r. cbv zeta. destruct H as [H|H].
+  - apply dbl_finite_nonzero_accepted. exact H.
+  - rewrite H. unfold dbl_error. reflexivity.
+Qed.
+
 Definition otype_eq_dec (a b : otype) : {a = b} + {a <> b}.
 Proof. decide equality. Defined.
 
